@@ -2146,7 +2146,11 @@ def g_well_conditioned(ref, lamref, eps):
     max mu_k + eps_k) has to be at least 1e9 ulp of the multiplier.  -> (ok, distance)"""
     floor = max(ref.dual_floor(k, eps[k]) for k in ref.active)
     room = lamref - floor
-    return room > 1e9 * math.ulp(max(abs(lamref), abs(floor), 1e-300)), room
+    mag = max(abs(lamref), abs(floor), 1e-300)
+    if ref.variant == 'nonmono':
+        # the distance is computed as multiplier - mu_k - eps_k: the terms cancel even when their sum, the limit, is 0
+        mag = max([mag] + [max(abs(ref.mu[k]), abs(ref.eps(eps[k]))) for k in ref.active])
+    return room > 1e9 * math.ulp(mag), room
 
 
 def gkey(clause, variant, cfg, extra):
